@@ -9,6 +9,12 @@
 
     (a) loaders     `csv_loader_total`, `ltsv_loader_total`, `fixed_loader_total`: every character string,
                     under every option vector, decodes to an error or to a RECTANGULAR table (C02's theorems);
+                    `json_loader_total`, `jsonl_loader_total`: the same for JSON / JSON Lines texts, and
+                    `json_structure_loader_total`, `jsonl_structure_loader_total`, `json_query_loader_total`: for EVERY
+                    decoded JSON value the structure mapping (lib/json LoadTable with the empty query and with `{}`,
+                    ConvertToTableValue, the collector of loadViewFromJsonLinesFile — Csvq.Model.JsonStruct) returns an
+                    error or a rectangular table (Csvq.Props.C02Json); `fixed_singleline_loader_total`: the same for
+                    single-line fixed-length files (`S[…]`, Csvq.Props.C02Single);
     (b) exit codes  `exit_code_total`: every error constructor of lib/query/error.go passes a return code of
                     the manual's table (or is one of the three documented dynamic ones: EXIT n, TRIGGER ERROR n,
                     signal 128+n); `return_codes_documented`, `exit_default_documented`,
@@ -48,6 +54,8 @@
 import Csvq.Gen.ErrFacts
 import Csvq.Lemmas.ErrFacts
 import Csvq.Props.C02
+import Csvq.Props.C02Json
+import Csvq.Props.C02Single
 import Csvq.Props.C07
 import Csvq.Props.C16
 
@@ -238,5 +246,52 @@ theorem fixed_loader_total (wd : Char → Nat) (o : Fixed.Opts) (P : List Nat) (
   cases h : Fixed.decodeFixed wd o P inp with
   | error e => exact Or.inl ⟨e, rfl⟩
   | ok t => exact Or.inr ⟨t, rfl, C02.F.fixed_rectangular wd o P inp t h⟩
+
+/-- JSON: every text is refused or loads as a rectangular table (scanner + grammar + structure mapping). -/
+theorem json_loader_total (canon : List Char → Option (List Char)) (inp : List Char) :
+    (∃ e, Json.decodeJson canon inp = .error e) ∨
+    ∃ t, Json.decodeJson canon inp = .ok t ∧ ∀ row ∈ t.rows, row.length = t.header.length := by
+  cases h : Json.decodeJson canon inp with
+  | error e => exact Or.inl ⟨e, rfl⟩
+  | ok t => exact Or.inr ⟨t, rfl, C02.J.json_rectangular canon inp t h⟩
+
+/-- JSON Lines: the same. -/
+theorem jsonl_loader_total (canon : List Char → Option (List Char)) (inp : List Char) :
+    (∃ e, Json.decodeJsonl canon inp = .error e) ∨
+    ∃ t, Json.decodeJsonl canon inp = .ok t ∧ ∀ row ∈ t.rows, row.length = t.header.length := by
+  cases h : Json.decodeJsonl canon inp with
+  | error e => exact Or.inl ⟨e, rfl⟩
+  | ok t => exact Or.inr ⟨t, rfl, C02.J.jsonl_rectangular canon inp t h⟩
+
+/-- the structure mapping of the JSON loader, for EVERY decoded value (`none` = the empty text) -/
+theorem json_structure_loader_total (canon : List Char → Option (List Char)) (v : Option Json.JS) :
+    Json.loadTable canon v = .error .parse ∨
+    ∃ t, Json.loadTable canon v = .ok t ∧ ∀ row ∈ t.rows, row.length = t.header.length :=
+  C02.S.json_load_rectangular canon v
+
+/-- … of the JSON Lines loader, for EVERY sequence of decoded lines -/
+theorem jsonl_structure_loader_total (canon : List Char → Option (List Char)) (lines : List (Option Json.JS)) :
+    Json.loadJsonLines canon lines = .error .parse ∨
+    ∃ t, Json.loadJsonLines canon lines = .ok t ∧ ∀ row ∈ t.rows, row.length = t.header.length :=
+  C02.S.jsonl_load_rectangular canon lines
+
+/-- … with the json-query `{}` -/
+theorem json_query_loader_total (canon : List Char → Option (List Char)) (v : Option Json.JS) :
+    Json.loadTableQ canon v = .error .parse ∨
+    ∃ t, Json.loadTableQ canon v = .ok t ∧ ∀ row ∈ t.rows, row.length = t.header.length :=
+  C02.S.json_query_load_rectangular canon v
+
+/-- fixed-length SINGLE-LINE files (`S[…]`): every text, under every positions list, is refused or loads rectangular -/
+theorem fixed_singleline_loader_total (wd : Char → Nat) (o : Fixed.Opts) (P : List Nat) (inp : List Char) :
+    (∃ e, Fixed.decodeFixedS wd o P inp = .error e) ∨
+    ∃ t, Fixed.decodeFixedS wd o P inp = .ok t ∧ ∀ row ∈ t.rows, row.length = t.header.length := by
+  cases h : Fixed.decodeFixedS wd o P inp with
+  | error e => exact Or.inl ⟨e, rfl⟩
+  | ok t => exact Or.inr ⟨t, rfl, C02.FS.fixed_singleline_rectangular wd o P inp t h⟩
+
+-- non-vacuity: a value that loads (with a missing member) and one that is refused
+example : ∃ t, Json.loadTable (fun a => some a) (some (.arr [.obj [(['a'], .null)], .obj []])) = .ok t ∧ t.rows.length = 2 :=
+  ⟨_, rfl, rfl⟩
+example : Json.loadTable (fun a => some a) (some (.arr [.null])) = .error .parse := rfl
 
 end Csvq.C19
